@@ -97,6 +97,10 @@ def main(tier, seed):
                 lines.append("enc qr %d 1 %s" % (rng.randrange(4), J.hx("".join(rng.choice("0123456789") for _ in range(L)))))
                 if L < 90:
                     lines.append("enc qr %d 2 %s" % (rng.randrange(4), J.hx("".join(rng.choice(J.ALNUM) for _ in range(L)))))
+            import held
+            for tj in held.qr_tie_jobs():
+                lines.append("enc " + tj)
+                lines.append("enc " + tj)
             lines.append("enc qr 0 1 %s" % J.hx("7" * 7089))
             lines.append("enc qr 0 2 %s" % J.hx("A" * 4296))
             lines.append("enc az 33 0 %s" % J.hx("A" * 1600))
